@@ -275,7 +275,10 @@ def render(ir):
     emit("fibers[t] = Fiber.new(mks[t](t));", 3)
     emit('print(("ev", "drop", t));', 3)
     emit("} else if a == 10 {", 2)
-    emit('print(("ev", "fin", fibers[print(("pick", %d))].has_finished()));' % nf, 3)
+    emit('var q = print(("pick", 4));', 3)
+    emit('if q < 2 { print(("ev", "fin", fibers[print(("pick", %d))].has_finished())); }' % nf, 3)
+    emit('else if q == 2 { try { Fiber.new(|x, y| { return x; }); print(("ev", "badnew-made")); } catch e { print(("ev", "badnew", type(e))); } }', 3)
+    emit('else { try { Fiber.new(fibers[print(("pick", %d))]); print(("ev", "badnew-made")); } catch e { print(("ev", "badnew", type(e))); } }' % nf, 3)
     emit("} else {", 2)
     if wrap:
         emit('print(("ev", "noop"));', 3)
@@ -638,8 +641,17 @@ def model(ir, tape, faults, chooser=None):
                 gens[t] = None
                 ev.append([s("drop"), num(t)])
             elif a == 10:
-                t = pick(nf)
-                ev.append([s("fin"), b(state[t] == "fin")])
+                q = pick(4)
+                if q < 2:
+                    t = pick(nf)
+                    ev.append([s("fin"), b(state[t] == "fin")])
+                elif q == 2:
+                    probes.inc("illegal:new_fiber_from_two_parameter_function")
+                    ev.append([s("badnew"), cls("ValueError")])
+                else:
+                    pick(nf)
+                    probes.inc("illegal:new_fiber_from_non_function")
+                    ev.append([s("badnew"), cls("TypeError")])
             else:
                 if wrap:
                     ev.append([s("noop")])
